@@ -870,6 +870,15 @@ class Engine:
         else:
             self.exec_block(n.orelse)
 
+    def div_guard(self, txt, nonzero):
+        """Division: a safety obligation, unless the contract speaks about ZeroDivisionError - then it is a branch
+        of the analysed code like any other `raise`."""
+        if 'ZeroDivisionError' in self.c.raises or 'ZeroDivisionError' in self.c.raises_bounds:
+            if not self.branch(nonzero):
+                raise PyRaise('ZeroDivisionError')
+            return
+        self.oblige('safety', 'div:' + txt, nonzero)
+
     def for_concrete(self, n, items):
         for x in items:
             self.store(n.target, x)
@@ -925,6 +934,8 @@ class Engine:
             return o
         if hasattr(v, 'havoc'):
             return v.havoc(self, name)
+        if isinstance(v, Opaque):
+            return v            # an opaque value has no observable state: nothing to forget
         # no symbolic form: the name is poisoned - any read before it is assigned again is a checker error
         return Poison(name)
 
@@ -1199,7 +1210,18 @@ class Engine:
                 raise Unsupported('slice step')
             return self.slice(base, lo, hi, e)
         idx = self.eval(e.slice)
-        return self.index(base, idx, e)
+        r = self.index(base, idx, e)
+        if isinstance(r, Obj) and isinstance(base, ArrList) and not self.in_spec:
+            # the element is a reference into the list: remember its slot so that a later field store updates the list
+            if isinstance(idx, int) and idx < 0:
+                idx = zint(base.length) + idx
+            if isinstance(e.value, ast.Name):
+                r.alias = ((self.lookup_scope(e.value.id) or self.env), e.value.id, idx)
+            elif isinstance(e.value, ast.Attribute):
+                owner = self.eval(e.value.value)
+                if isinstance(owner, Obj):
+                    r.alias = (owner, e.value.attr, idx)
+        return r
 
     def index(self, base, idx, e=None):
         txt = ast.unparse(e)[:50] if e is not None else ''
@@ -1428,10 +1450,10 @@ class Engine:
                 sym = {ast.Add: '+', ast.Sub: '-', ast.Mult: '*', ast.Div: '/'}.get(type(op))
                 if sym:
                     if sym == '/':
-                        self.oblige('safety', 'div:' + txt, zint(rb.num) != 0)
+                        self.div_guard(txt, zint(rb.num) != 0)
                     return ratio_op(sym, ra, rb)
                 if isinstance(op, ast.FloorDiv):
-                    self.oblige('safety', 'div:' + txt, zint(rb.num) != 0)
+                    self.div_guard(txt, zint(rb.num) != 0)
                     q = ratio_op('/', ra, rb)
                     return Ratio(q.floor(), 1) if (isinstance(a, Ratio) or isinstance(b, Ratio)) else q.floor()
             a = a.real() if isinstance(a, Ratio) else a
@@ -1442,7 +1464,7 @@ class Engine:
                 return eval(compile(ast.Expression(ast.fix_missing_locations(
                     ast.BinOp(ast.Constant(a), op, ast.Constant(b)))), '<const>', 'eval'))
             except ZeroDivisionError:
-                self.oblige('safety', 'div:' + txt, z3.BoolVal(False))
+                self.div_guard(txt, z3.BoolVal(False))
                 raise PathCut()
         za, zb = zint(a), zint(b)
         real = za.sort() == REAL or zb.sort() == REAL
@@ -1451,10 +1473,10 @@ class Engine:
                 za, zb = zreal(za), zreal(zb)
             return za + zb if isinstance(op, ast.Add) else za - zb if isinstance(op, ast.Sub) else za * zb
         if isinstance(op, ast.Div):
-            self.oblige('safety', 'div:' + txt, zb != 0)
+            self.div_guard(txt, zb != 0)
             return zreal(za) / zreal(zb)
         if isinstance(op, ast.FloorDiv):
-            self.oblige('safety', 'div:' + txt, zb != 0)
+            self.div_guard(txt, zb != 0)
             if real and za.sort() == INT and isinstance(b, float) and b == int(b) and b != 0:
                 # int // integral float constant: floor of the exact quotient == integer floor division
                 return z3.ToReal(floordiv(za, z3.IntVal(int(b))))
@@ -1462,7 +1484,7 @@ class Engine:
                 return z3.ToReal(z3.ToInt(zreal(za) / zreal(zb)))
             return floordiv(za, zb)
         if isinstance(op, ast.Mod):
-            self.oblige('safety', 'div:' + txt, zb != 0)
+            self.div_guard(txt, zb != 0)
             if real:
                 q = z3.ToReal(z3.ToInt(zreal(za) / zreal(zb)))
                 return zreal(za) - zreal(zb) * q
@@ -1522,6 +1544,9 @@ class Engine:
         if isinstance(op, (ast.In, ast.NotIn)):
             if hasattr(b, 'contains'):
                 r = b.contains(self, a)
+            elif hasattr(a, 'compare') and isinstance(b, (tuple, PyList)):
+                items = b.items if isinstance(b, PyList) else b
+                r = z3.Or(*[zbool(a.compare(self, ast.Eq(), x, False)) for x in items]) if items else False
             elif isinstance(b, (tuple, PyList, dict, str)) and not is_sym(a) and not isinstance(a, (Opt, SStr)):
                 items = b.items if isinstance(b, PyList) else b
                 r = a in items
@@ -1614,6 +1639,8 @@ class Engine:
             if r is not NotImplemented:
                 return r
         if ftxt in self.c.models:
+            if getattr(self.c.models[ftxt], 'lazy', False):
+                return self.c.models[ftxt](self, e, None, None)      # the model looks at the AST itself
             args, kwargs = self.args(e)
             return self.c.models[ftxt](self, e, args, kwargs)
         if ftxt in self.world.get('__models__', {}):
